@@ -469,7 +469,7 @@ static void run_c07(long cases) {
         int when = r.range(0, 2);   // other connections issue their request: 0 during the block, 1 before and during, 2 during, repeatedly
         // 0 fixed response, 1 streamed response flushed per chunk, 2 fixed response + second request from the blocked peer while the worker is busy,
         // 3 file response (sendfile), 4 fixed response + the blocked peer sends the first part of its next request during the stall
-        int variant = (int)((n + g_opts.shard) % 7);   // 6 like 4, but the partial request and the start of reading reach a worker that is away: ONE event, readable and writable, and nothing new to write   // 5 streamed response resumed by a later flush of its own handler (the client starts reading while the handler is still flushing)
+        int variant = (int)((n * g_opts.nshards + g_opts.shard) % 7);   // 6 like 4, but the partial request and the start of reading reach a worker that is away: ONE event, readable and writable, and nothing new to write   // 5 streamed response resumed by a later flush of its own handler (the client starts reading while the handler is still flushing)
         double stall = 0.2 + r.below(10) * 0.1;
         std::string wt = Json().num("i", idx).str("phase", "c07").num("big_bytes", (long long)big).num("extra_writes", extra).num("others", nOthers).num("when", when).num("stall_s_x10", (long long)(stall * 10)).done();
         set_case(idx, wt);
@@ -587,7 +587,7 @@ static void run_c07(long cases) {
         g_evals++;
         if (!key.empty()) violation(key, key.substr(4) + " [variant " + std::to_string(variant) + "] (worst latency of other connections " + std::to_string(worst) + " s)", wt);
         g_distinct.add(std::to_string(variant) + "|" + std::to_string(big >> 20) + "|" + std::to_string(extra) + "|" + std::to_string(nOthers) + "|" + std::to_string(when) + "|" + std::to_string((int)(stall * 10)));
-        count("scenarios");
+        count("scenarios"); count("variant_" + std::to_string(variant));
         g_counts["worst_other_latency_ms"] = std::max<long>(g_counts["worst_other_latency_ms"], (long)(worst * 1000));
         if (g_samples_left > 0) { g_samples_left--; sample(Json().num("big_bytes", (long long)big).num("others", nOthers).num("write_attempts_while_blocked", attempts).num("worst_other_latency_ms", (long long)(worst * 1000)).done()); }
         a.close_now(); others.clear();
